@@ -59,6 +59,7 @@ LintReasons(e, c, rep) ==
    (IF ToSet(e.names) = ToSet(NamesOfAcc(rep)) /\ Len(e.names) = Len(rep) THEN {} ELSE {<<"results-are-not-the-lints-of-the-registry", 0, 0>>}) \cup
    {<<"differs-from-the-same-call-made-alone", e.names[j], e.st[j]>> :
         j \in {x \in 1..Len(e.names) : <<c.o, e.rkey, e.names[x]>> \in DOMAIN memo /\ memo[<<c.o, e.rkey, e.names[x]>>] # <<e.st[x], e.dg[x]>>}} \cup
+   (IF e.jsonBad = "" THEN {} ELSE {<<"encoded-result-differs-from-the-result", 0, 0>>}) \cup
    {<<"no-baseline", e.names[j], 0>> : j \in {x \in 1..Len(e.names) : <<c.o, e.rkey, e.names[x]>> \notin DOMAIN memo}} \cup
    (IF e.gated /\ e.ran # NamesOfAcc(rep) THEN {<<"fid-lints-not-run-in-registration-order", 0, 0>>} ELSE {}) \cup
    (IF e.gated /\ ~(ToSet(e.cons) \subseteq ToSet(e.ran)) THEN {<<"fid-constructed-but-not-run", 0, 0>>} ELSE {})
